@@ -1,4 +1,6 @@
 """C04 - single-IMF extraction obeys its stopping rule and always terminates."""
+import copy
+
 import numpy as np
 from hypothesis import strategies as st
 
@@ -20,6 +22,9 @@ RULE = ("Cases: signals of length 3..400 from all families (short noisy ones ove
         "Non-trivial: the reference needed >= 2 iterations.")
 ASSUMPTIONS = ["scipy interpolators shared by implementation and reference are trusted; the oracle is about the "
                "iteration, stopping and limit logic", "a single extraction running > 240 s counts as non-termination"]
+
+
+MAGPADS = [{'mode': 'mean', 'stat_length': 3}, {'mode': 'median', 'stat_length': 3}, {'mode': 'edge'}, {'mode': 'maximum'}]
 
 
 @st.composite
@@ -45,7 +50,8 @@ def case(draw):
         energy = None
     return {'sig': sig, 'opts': opts, 'energy': energy,
             'interp': draw(st.sampled_from(['splrep', 'pchip', 'mono_pchip'])),
-            'pad': draw(st.integers(1, 5)), 'ampl': ampl}
+            'pad': draw(st.integers(1, 5)), 'ampl': ampl,
+            'par': draw(st.sampled_from([False, False, False, True])), 'magpad': draw(st.sampled_from([None, None, None, 0, 1, 2, 3]))}
 
 
 @st.composite
@@ -75,6 +81,11 @@ def oracle(case, rec):
     opts = dict(case['opts'])
     eo = {'interp_method': case['interp']}
     xo = {'pad_width': case['pad']}
+    if case.get('par'):
+        xo['parabolic_extrema'] = True
+    if case.get('magpad') is not None:
+        xo['mag_pad_opts'] = dict(MAGPADS[case['magpad']])
+    rec.cls('extrema-options=%s' % ('pad-width-only' if len(xo) == 1 else 'refined/custom-padding'))
     L = opts['max_iters']
     sm = opts['stop_method']
     r = refmodel.ref_extract(x, envelope_opts=eo, extrema_opts=xo, hard_cap=(L + 3 if sm != 'fixed' else L + 1), **opts)
@@ -82,7 +93,7 @@ def oracle(case, rec):
     if case['energy'] is not None:
         kw['energy_thresh'] = case['energy']
     xin = gens.arg(xt)[:, None]
-    eo_live, xo_live = dict(eo), dict(xo)       # caller-owned dicts, reused for the repeated call below
+    eo_live, xo_live = dict(eo), copy.deepcopy(xo)       # caller-owned dicts, reused for the repeated call below
     try:
         imf, flag = emd.sift.get_next_imf(xin, envelope_opts=eo_live, extrema_opts=xo_live, **kw)
         got = 'result'
@@ -111,6 +122,15 @@ def oracle(case, rec):
     def mismatch(sig, msg):
         if not well:
             raise Discard('mismatch on an ill-conditioned case (stop metric within 1e-9 of threshold / zero Rilling amplitude)')
+        if xo.get('parabolic_extrema'):
+            # under parabolic refinement a near-flat extremum makes the vertex formula itself rounding sensitive: measured
+            # by running the reference with its two algebraically equal vertex formulas (see DESIGN 7.3, C06.reference)
+            def run():
+                return refmodel.ref_extract(x, envelope_opts=eo, extrema_opts=xo,
+                                            hard_cap=(L + 3 if sm != 'fixed' else L + 1), **opts).imf
+            sens = refmodel.rounding_sensitive(run) / (np.abs(x).max() or 1.0)
+            if r.margin_par <= 1e-4 or r.margin_tie <= 1e-10 or sens > 1e-12:
+                raise Discard('mismatch on an extraction that is rounding sensitive under parabolic refinement')
         raise Violation(sig, msg + ' [ref exit=%s niters=%d L=%d opts=%r n=%d]' % (r.exit, r.niters, L, opts, x.size))
 
     if sm != 'fixed':
